@@ -832,3 +832,26 @@ pub fn closure_inner_mut_capture_panics(a: &[u8; 4], s: &[u8]) -> u8 {
     });
     acc
 }
+
+// `x << 4` on u8 truncates: it is not 16*x, so `x >= 16` does not make the result >= 256 / non-zero
+pub fn shl_truncating_sub_panics(x: u8) -> u8 {
+    if x < 16 {
+        return 0;
+    }
+    let y = x << 4;
+    y - 1
+}
+// no bit is shifted out of the u32: the shift is the multiplication, 256 * x <= 65280
+pub fn shl_widened_index_safe(a: &[u8; 65281], x: u8) -> u8 {
+    a[(u32::from(x) << 8) as usize]
+}
+pub fn shl_widened_index_panics(a: &[u8; 65280], x: u8) -> u8 {
+    a[(u32::from(x) << 8) as usize]
+}
+// bit test through a mask vs through a shift: only equal under the width invariant
+pub fn bit_test_index_safe(a: &[u8; 2], x: u8) -> u8 {
+    a[usize::from(x >> 7 == 1)]
+}
+pub fn bit_test_index_panics(a: &[u8; 1], x: u8) -> u8 {
+    a[usize::from(x & 0x80 != 0)]
+}
